@@ -9,6 +9,10 @@ T: real format_value (directly and through ARSCResStringPoolRef.format_value rea
 S: oracle = AOSP TypedValue (complexToFloat with a signed 24-bit mantissa, radix shifts 0/7/15/23, unit
    tables, signed 32-bit decimal, IEEE-754 binary32) computed with fractions.Fraction and decimal
    (round-half-even to 6 places); it shares nothing with the model.
+   'Ask again later' streams: format_value is a pure function, so (a) the whole main case list is asked a
+   second time in reverse order and (b) fresh distinct complex values are formatted in chunks of varying
+   size with the whole recent history re-asked newest-first after every chunk; every later answer must
+   equal Android's meaning again (catches memo / cache state of any size; the model is stateless).
 The model and theorems describe the code with fixes/C27-signed-mantissa-exact-radix.diff applied."""
 import decimal
 import io
@@ -21,6 +25,15 @@ import types
 from fractions import Fraction
 
 from harness.fw import VERIF, Check, Driver
+
+PINS = [
+    ("androguard/core/axml/__init__.py", "format_value"),
+    ("androguard/core/axml/__init__.py", "complexToFloat"),
+    ("androguard/core/axml/__init__.py", "ARSCParser.get_resource_dimen"),
+    ("androguard/core/axml/__init__.py", "ARSCParser.get_resource_color"),
+    ("androguard/core/axml/__init__.py", "ARSCResStringPoolRef.__init__"),
+    ("androguard/core/axml/__init__.py", "ARSCResStringPoolRef.format_value"),
+]
 
 DIM = ["px", "dip", "sp", "pt", "in", "mm"]      # android.util.TypedValue.DIMENSION_UNIT_STRS
 FRA = ["%", "%p"]                                # FRACTION_UNIT_STRS
@@ -277,6 +290,41 @@ def random_data(rng):
     return (rng.choice((0, 1, 1, 2, 0x7F)) << 24) | rng.getrandbits(24)
 
 
+# ----------------------------------------------------------------- ask again later
+CHUNKS = (1, 2, 3, 5, 8, 17, 64, 300, 1500, 5000)
+
+
+def reask_chunked(ck: Check, real: Real, seed, n, depth, report=True):
+    """formats n fresh distinct complex values in chunks; after each chunk re-asks the last `depth` values
+    newest-first.  Returns (calls, first failure or None)."""
+    import random
+    rng = random.Random(f"C27-reask/{seed}")
+    hist, seen, calls, first = [], set(), 0, None
+    while len(hist) < n:
+        for _ in range(rng.choice(CHUNKS)):
+            t = rng.choice((T_DIM, T_DIM, T_FRAC))
+            d = (rng.getrandbits(24) << 8) | (rng.randrange(4) << 4) | rng.randrange(6 if t == T_DIM else 2)
+            if (t, d) in seen:
+                continue
+            seen.add((t, d))
+            want = "ok " + expect(t, d)[1]
+            got = real.fmt(t, d); calls += 1
+            hist.append((t, d, want))
+            if got != want and first is None:
+                first = (t, d, want, got, "first time", len(hist))
+        for back, (t, d, want) in enumerate(reversed(hist[-depth:])):
+            got = real.fmt(t, d); calls += 1
+            if got != want and first is None:
+                first = (t, d, want, got, f"asked again after {back} newer values ({len(hist)} distinct values formatted so far)", len(hist))
+        if first is not None:
+            break
+    if first is not None and report:
+        t, d, want, got, when, k = first
+        ck.fail({"type": t, "data": d, "via": "re-ask", "reask": {"stream": "chunked", "seed": seed, "n": n, "depth": depth, "when": when}},
+                "format_value answers differently when a value is asked again later", None, want[3:], got[3:] if got.startswith("ok ") else got)
+    return calls, first
+
+
 def corpus_cases():
     d = os.path.join(VERIF, "corpus", "C27")
     out = []
@@ -290,6 +338,8 @@ def corpus_cases():
 # ----------------------------------------------------------------- run
 def run(ck: Check):
     real = Real()
+    ck.pins_changed(PINS)
+    deep = (not ck.quick) or getattr(ck, "escalated", False)
     ck.run_gen("resvalues")
     ck.prove(exes=["drv_C27"])
     drv = Driver("drv_C27")
@@ -322,6 +372,22 @@ def run(ck: Check):
     rr = [real.fmt(t, d) for t, d in cases]
     model = drv.ask(reqs)
     ck.compare("format_value", reqs, rr, model)
+    # ask again later (a): the whole list a second time, newest first; answers must not have changed
+    order = list(range(len(cases) - 1, -1, -1))
+    rr2 = [real.fmt(*cases[i]) for i in order]
+    ck.compare("format_value-asked-again", [reqs[i] for i in order], rr2, [model[i] for i in order])
+    nre = 0
+    for i, got in zip(order, rr2):
+        if got != rr[i] and nre < 5:
+            nre += 1
+            t, d = cases[i]
+            ex = expect(t, d)
+            ck.fail({"type": t, "data": d, "via": "re-ask", "reask": {"stream": "reverse-main", "seed": ck.seed, "n": 40000, "depth": 20000,
+                                                                     "when": f"first answer {rr[i]!r}, asked again after {len(cases) - 1 - i} later requests"}},
+                    "format_value answers differently when a value is asked again later", None, ex[1] if ex else rr[i], got[3:] if got.startswith("ok ") else got)
+    # (b) fresh values in chunks, recent history re-asked after every chunk
+    ncalls, _ = reask_chunked(ck, real, ck.seed, 40000 if deep else 10000, 20000 if deep else 10000)
+    ck.cover(evaluations=len(cases), dist={"asked_again_reverse": len(cases), "asked_again_chunked_calls": ncalls})
     # the same values as Res_value records read from bytes (types are one byte there)
     sub = [i for i, (t, d) in enumerate(cases) if t < 256][:: 3 if ck.quick else 1]
     ck.compare("ARSCResStringPoolRef.format_value", [reqs[i] for i in sub],
@@ -407,6 +473,15 @@ def replay(ck: Check, rp):
             ok = judge_color(ck, real, d)
         print("property holds on this case:", ok)
         return 0 if ok else 1
+    if c.get("via") == "re-ask":
+        ra = c["reask"]
+        print("state-dependent failure:", ra.get("when"))
+        calls, first = reask_chunked(ck, real, ra.get("seed", 0), max(ra.get("n", 40000), 40000), max(ra.get("depth", 20000), 20000), report=False)
+        if first:
+            t, d, want, got, when, k = first
+            print(f"reproduced ({calls} calls): format_value(0x{t:02x}, 0x{d:08x}) = {got}; Android: {want}; {when}")
+            return 1
+        print(f"not reproduced by the chunked ask-again stream ({calls} calls); single-shot value follows")
     if "type" in c:
         t, d = c["type"], c["data"]
         got = real.fmt(t, d)
